@@ -1644,8 +1644,13 @@ def add_invariant_checks(cls: ClassT) -> None:
     # classes which come later in the method resolution order of a common sub-class.
 
     for name, func in names_funcs:
+        # ``__setstate__`` establishes the state of a blank object (``copy`` and ``pickle`` call it right after
+        # ``__new__``, ``__init__`` is not run). Like a constructor, it can only be followed by the invariants:
+        # there is nothing yet which they could hold for beforehand.
         wrapper = _decorate_with_invariants(
-            func=func, is_init=False, is_setattr=(name == "__setattr__")
+            func=func,
+            is_init=(name == "__setstate__"),
+            is_setattr=(name == "__setattr__"),
         )
         if wrapper is not func or name in unshadowed:
             if wrapper is not func and name not in cls.__dict__:
